@@ -6,7 +6,7 @@
    [Rops ora] is the real-number instance of the number interface. *)
 From Coq Require Import Reals List ZArith.
 From Coquelicot Require Import Coquelicot.
-From GS Require Import Num Loops RInst Summator_gen C15_KernelSpec C16_Spec C16_Refine C16_Div C16_Stat.
+From GS Require Import Num Loops RInst Summator_gen C15_KernelSpec C16_Spec C16_Refine C16_Div C16_Stat C16_Split.
 Import ListNotations.
 Open Scope R_scope.
 
@@ -24,6 +24,14 @@ Theorem C16_kernel_pointwise :
     aget2 (n0 O) (summate_incompr O ks z1 z2 pos) d i = vfield O ks z1 z2 (acol (n0 O) pos i) d.
 Proof. exact @summate_incompr_pointwise. Qed.
 Print Assumptions C16_kernel_pointwise.
+
+(* the modelled generator call (kernel spec followed by the affine map of IncomprRandMeth.__call__) entry by entry *)
+Theorem C16_generate_pointwise :
+  forall (T : Type) (O : NumOps T) mean_u var N ks z1 z2 pos nug d i, (d < shape0 pos)%nat -> (i < shape1 pos)%nat ->
+    aget2 (n0 O) (incompr_generate O mean_u var N ks z1 z2 pos nug) d i
+    = incompr_out O mean_u var N d (vfield O ks z1 z2 (acol (n0 O) pos i) d) (aget2 (n0 O) nug d i).
+Proof. exact @incompr_generate_pointwise. Qed.
+Print Assumptions C16_generate_pointwise.
 
 (* sum_d k_d p_d(k) = 0 for every non-zero wave vector, any dimension >= 1 *)
 Theorem C16_projector_orthogonal :
@@ -79,3 +87,87 @@ Theorem C16_mean :
     E (fun w => velocity (Rops ora) mean_u var N (KS w) (Z1 w) (Z2 w) x d) = mean_u * e1_of (Rops ora) d.
 Proof. exact mean_velocity. Qed.
 Print Assumptions C16_mean.
+
+(* non-vacuity of the premises of C16_divergence_free and of the hypotheses of C16_mean / C16_variance *)
+Theorem C16_premises_satisfiable :
+  (let ks := [[1; 0]; [2; -3]] in let x := [5; 7] in
+   length x = shape0 ks /\ (0 < shape0 ks)%nat /\
+   (forall j, (j < shape1 ks)%nat -> exists d, (d < shape0 ks)%nat /\ aget2 0 ks d j <> 0)) /\
+  (let E := fun f : bool * bool -> R => (f (true, true) + f (true, false) + f (false, true) + f (false, false)) / 4 in
+   let KS := fun _ : bool * bool => [[1]; [0]] in
+   let sg := fun b : bool => if b then 1 else -1 in
+   let Z1 := fun w : bool * bool => [sg (fst w)] in
+   let Z2 := fun w : bool * bool => [sg (snd w)] in
+   (forall f g, (forall w, f w = g w) -> E f = E g) /\
+   (forall f g, E (fun w => f w + g w) = E f + E g) /\
+   (forall c f, E (fun w => c * f w) = c * E f) /\
+   (forall c, E (fun _ => c) = c) /\
+   (forall j l (g : list (list R) -> R), (j < 1)%nat -> (l < 1)%nat ->
+      E (fun w => aget 0 (Z1 w) j * aget 0 (Z1 w) l * g (KS w)) = if Nat.eqb j l then E (fun w => g (KS w)) else 0) /\
+   (forall j l (g : list (list R) -> R), (j < 1)%nat -> (l < 1)%nat ->
+      E (fun w => aget 0 (Z2 w) j * aget 0 (Z2 w) l * g (KS w)) = if Nat.eqb j l then E (fun w => g (KS w)) else 0) /\
+   (forall j l (g : list (list R) -> R), (j < 1)%nat -> (l < 1)%nat ->
+      E (fun w => aget 0 (Z1 w) j * aget 0 (Z2 w) l * g (KS w)) = 0)).
+Proof. exact (conj divergence_premises_satisfiable variance_hypotheses_satisfiable). Qed.
+Print Assumptions C16_premises_satisfiable.
+
+(* variance: for ANY linear expectation, amplitudes with unit variance, uncorrelated with each other and with every
+   function of the wave vectors:  E[(u_d(x) - mean_u e1_d)^2] = (mean_u sqrt(var/N))^2 sum_j E[p_d(k_j)^2]  at every x *)
+Theorem C16_variance :
+  forall ora (Omega : Type) (E : (Omega -> R) -> R),
+    (forall f g, (forall w, f w = g w) -> E f = E g) ->
+    (forall f g, E (fun w => f w + g w) = E f + E g) ->
+    (forall c f, E (fun w => c * f w) = c * E f) ->
+    (forall c, E (fun _ => c) = c) ->
+    forall (KS : Omega -> list (list R)) (Z1 Z2 : Omega -> list R) (Nm : nat),
+    (forall w, shape1 (KS w) = Nm) ->
+    (forall j l (g : list (list R) -> R), (j < Nm)%nat -> (l < Nm)%nat ->
+       E (fun w => aget 0 (Z1 w) j * aget 0 (Z1 w) l * g (KS w)) = if Nat.eqb j l then E (fun w => g (KS w)) else 0) ->
+    (forall j l (g : list (list R) -> R), (j < Nm)%nat -> (l < Nm)%nat ->
+       E (fun w => aget 0 (Z2 w) j * aget 0 (Z2 w) l * g (KS w)) = if Nat.eqb j l then E (fun w => g (KS w)) else 0) ->
+    (forall j l (g : list (list R) -> R), (j < Nm)%nat -> (l < Nm)%nat ->
+       E (fun w => aget 0 (Z1 w) j * aget 0 (Z2 w) l * g (KS w)) = 0) ->
+    forall mean_u var N x d,
+    E (fun w => (velocity (Rops ora) mean_u var N (KS w) (Z1 w) (Z2 w) x d - mean_u * e1_of (Rops ora) d) ^ 2)
+    = (incompr_amp (Rops ora) mean_u var N) ^ 2 * Rsum (fun j => E (fun w => (proj_of (Rops ora) (KS w) d j) ^ 2)) Nm.
+Proof. exact variance_velocity. Qed.
+Print Assumptions C16_variance.
+
+(* identically distributed modes, mode_no = N > 0, var >= 0: component d carries q_d = E[p_d(k)^2] of mean_u^2 var *)
+Theorem C16_variance_fraction :
+  forall ora (Omega : Type) (E : (Omega -> R) -> R),
+    (forall f g, (forall w, f w = g w) -> E f = E g) ->
+    (forall f g, E (fun w => f w + g w) = E f + E g) ->
+    (forall c f, E (fun w => c * f w) = c * E f) ->
+    (forall c, E (fun _ => c) = c) ->
+    forall (KS : Omega -> list (list R)) (Z1 Z2 : Omega -> list R) (Nm : nat),
+    (forall w, shape1 (KS w) = Nm) ->
+    (forall j l (g : list (list R) -> R), (j < Nm)%nat -> (l < Nm)%nat ->
+       E (fun w => aget 0 (Z1 w) j * aget 0 (Z1 w) l * g (KS w)) = if Nat.eqb j l then E (fun w => g (KS w)) else 0) ->
+    (forall j l (g : list (list R) -> R), (j < Nm)%nat -> (l < Nm)%nat ->
+       E (fun w => aget 0 (Z2 w) j * aget 0 (Z2 w) l * g (KS w)) = if Nat.eqb j l then E (fun w => g (KS w)) else 0) ->
+    (forall j l (g : list (list R) -> R), (j < Nm)%nat -> (l < Nm)%nat ->
+       E (fun w => aget 0 (Z1 w) j * aget 0 (Z2 w) l * g (KS w)) = 0) ->
+    forall mean_u var x d q, (0 < Nm)%nat -> 0 <= var ->
+    (forall j, (j < Nm)%nat -> E (fun w => (proj_of (Rops ora) (KS w) d j) ^ 2) = q) ->
+    E (fun w => (velocity (Rops ora) mean_u var (Z.of_nat Nm) (KS w) (Z1 w) (Z2 w) x d - mean_u * e1_of (Rops ora) d) ^ 2)
+    = mean_u ^ 2 * var * q.
+Proof. exact variance_fraction. Qed.
+Print Assumptions C16_variance_fraction.
+
+(* the fractions for a uniformly distributed direction (parameterisations of RNG.sample_sphere), any radius r <> 0:
+   2-D: 3/8, 1/8;  3-D: 8/15, 1/15, 1/15 *)
+Theorem C16_variance_split_2d :
+  forall ora r, r <> 0 ->
+    RInt (fun t => (proj_of (Rops ora) (kdir2 r t) 0 0) ^ 2) 0 (2 * PI) / (2 * PI) = 3 / 8 /\
+    RInt (fun t => (proj_of (Rops ora) (kdir2 r t) 1 0) ^ 2) 0 (2 * PI) / (2 * PI) = 1 / 8.
+Proof. exact split_2d. Qed.
+Print Assumptions C16_variance_split_2d.
+
+Theorem C16_variance_split_3d :
+  forall ora r, r <> 0 ->
+    RInt (fun m => RInt (fun t => (proj_of (Rops ora) (kdir3 r m t) 0 0) ^ 2) 0 (2 * PI)) (-1) 1 / (4 * PI) = 8 / 15 /\
+    RInt (fun m => RInt (fun t => (proj_of (Rops ora) (kdir3 r m t) 1 0) ^ 2) 0 (2 * PI)) (-1) 1 / (4 * PI) = 1 / 15 /\
+    RInt (fun m => RInt (fun t => (proj_of (Rops ora) (kdir3 r m t) 2 0) ^ 2) 0 (2 * PI)) (-1) 1 / (4 * PI) = 1 / 15.
+Proof. exact split_3d. Qed.
+Print Assumptions C16_variance_split_3d.
